@@ -13,7 +13,8 @@ RULE_CORR = ("histories of 1-6 executions on one sandbox: every builtin exceptio
              "library and C code and in nested functions, normal programs (some replacing sys.stdout / time.sleep / "
              "sys.modules entries / their own __builtins__), each also with a second student file helper.py that the "
              "code imports (failing before/inside/after the import, or not compiling), through run(), call(), "
-             "evaluate(), 4 tracer styles, "
+             "evaluate() (main file answer.py or another name; run() bare / by file name / with code and file name; "
+             "call with and without arguments), 4 tracer styles, "
              "with a pre-installed trace function, optionally with a failure injected into the recording of the "
              "exception; real = pedal.sandbox.commands on MAIN_REPORT, model = Pedal.SandboxExec.runObserved via the "
              "driver; non-trivial = history containing a failing execution")
@@ -140,6 +141,7 @@ def make(prop, theorems, *, model_notes=None, refuted_full=None, driver_exe=None
                 break
             consider(ops, sx.run_history(ops))
         info["distinct_nontrivial"] = len(nt)
+        info["oracle_clauses_skipped"] = dict(sx.SKIPPED)
         return failures, info
 
     def replay(payload):
